@@ -31,3 +31,8 @@ add("C08", "exploration", "independent backtracking reference matcher compared w
     "near-misses, newline, Unicode digits, impossible dates, extra/missing segments) are dispatched through the real Router.__call__ of both interfaces with recording endpoints; the "
     "endpoint that ran / 404, the parameter values and their types are compared with the model, and to_string/to_python round trips are checked for every matched value.",
     "Trusts the reference matcher and its definition of each placeholder language; parameter values compared only when the binding is unique.")
+add("C09", "exploration", "prefix-selection reference model applied recursively to nested mount tables + root+path conservation invariant + untouched-request snapshot on 404; re.fullmatch model for Hosts; both server emulators",
+    "Random nested Subpaths tables (depth <=3, overlapping prefixes, default entries) are dispatched on both interfaces over an exhaustive list of short paths and several initial root "
+    "paths; the leaf reached, its root/path, the conservation of root+path and the request state after a 404 (per mount level) are compared with the model. Hosts tables of overlapping "
+    "patterns are compared with first-fullmatch selection.",
+    "Trusts the 10-line selection model; host pattern language is Python's re.")
